@@ -694,9 +694,9 @@ func TestVerif_C04_DB(t *testing.T) {
 			sets = append(sets, s)
 		}
 	}
-	pick(all3, run.N(80, 100000), false) // resurrections: interior tombstones (thorough: all of them)
-	pick(big4, run.N(40, 500), true)
-	pick(big5, run.N(20, 300), true)
+	pick(all3, run.N(80, 300), false) // resurrections: interior tombstones
+	pick(big4, run.N(40, 150), true)
+	pick(big5, run.N(20, 80), true)
 	run.Count("revision_sets_exhaustive", exhaustive)
 	run.Count("revision_sets_sampled", len(sets)-exhaustive)
 
